@@ -320,7 +320,7 @@ func (s *source) serve(h int, class string, variant int) (*gtypes.Block, string)
 				return b, "LastCommit by B,C,D,E only (4/8; would be 4/5 under the old set)"
 			}
 			b.LastCommit = s.commitBy(h-1, "AB") // 2/5
-			return b, "LastCommit by A,B only (2/5; would be 5/8 under the new set)"
+			return b, "LastCommit by A,B only (2/5)"
 		case 2:
 			for i := range b.LastCommit.Precommits {
 				b.LastCommit.Precommits[i] = nil
